@@ -113,16 +113,28 @@ def gitIgnoredSet (raw : Text) : List PPath := (splitSep '\x00' raw).map parsePa
 def listedIgnored (set : List PPath) (cwd : List Text) (root path : PPath) : Bool :=
   set.contains (relativeFromRoot cwd root path)
 
-/-- `_find_submodules`: the non-empty NUL-separated entries `key\nvalue`, of each the second
-    line (`entry.splitlines()[1]`); `none` = `IndexError` (an entry of one line). -/
+/-- `entry.split("\n", maxsplit=1)[1]`: what follows the first newline; `none` = `IndexError`. -/
+def afterFirstNewline (e : Text) : Option Text :=
+  match e.dropWhile (· != '\n') with
+  | [] => none
+  | _ :: rest => some rest
+
+/-- `_find_submodules`: the non-empty NUL-separated entries `key\nvalue`, of each the value
+    (which may contain line breaks itself: `-z` ends it with NUL); `none` = `IndexError`
+    (an entry without a newline). -/
 def gitSubmodules (raw : Text) : Option (List PPath) :=
   ((splitSep '\x00' raw).filter (fun e => !e.isEmpty)).mapM fun e =>
-    ((splitLines e)[1]?).map parsePath
+    (afterFirstNewline e).map parsePath
 
-/-- `VCSStrategyGit.is_submodule(path)`: both sides are made absolute against the working
-    directory of the process and compared. -/
+/-- `root / p` -/
+def joinPath (root p : PPath) : PPath :=
+  if p.anchor.isEmpty then ⟨root.anchor, root.parts ++ p.parts⟩ else p
+
+/-- `VCSStrategyGit.is_submodule(path)`: the root-relative path and the `.gitmodules` path,
+    both put below the root, resolved and compared. -/
 def gitIsSubmodule (subs : List PPath) (cwd : List Text) (root path : PPath) : Bool :=
-  subs.any fun s => resolveLex cwd (relativeFromRoot cwd root path) == resolveLex cwd s
+  subs.any fun s =>
+    resolveLex cwd (joinPath root (relativeFromRoot cwd root path)) == resolveLex cwd (joinPath root s)
 
 /-! ### Mercurial, Jujutsu, Pijul (only ever run on canned outputs: the programs are not installed) -/
 
